@@ -274,6 +274,10 @@ def run_check(modname, tier, seed, replay=None):
             continue
         unexplained.append(d)
 
+    if os.environ.get("VERIF_DEBUG"):
+        os.makedirs(WORK_DIR, exist_ok=True)
+        with open(os.path.join(WORK_DIR, f"disagreements_{prop}.json"), "w") as f:
+            json.dump(unexplained, f, indent=1, default=str)
     searched = 0
     if (unexplained or proof_broken) and not new_fail:
         # search for a failing input with a larger budget of monitor-only runs
